@@ -227,6 +227,62 @@ def exec_tie():
                     "ExecGen.")
 
 
+def shock_sweep_c14(seed=0, tier="quick", cov=None):
+    """directed search used with the C14 tie: Market.change_fundamental_price on the real objects at every distance from the point up to
+    which the fundamentals have already been generated (in particular on the last generated step), with zero drift and volatility, where
+    the property says what must happen: the target's value at the shock time is scaled, every later value continues from the new level,
+    every earlier value and the other market are untouched"""
+    import random
+    import warnings
+    from fractions import Fraction
+    from pams.market import Market
+    from pams.simulator import Simulator
+    warnings.filterwarnings("ignore")
+    out, n = [], 0
+    for t0 in (0, 3):                              # time of a parameter change that moves the regeneration point first
+        for dist in (1, 2, 3, 50, 99, 100, 101, 102, 199, 200):
+            sim = Simulator(prng=random.Random(seed))
+            f = sim.fundamentals
+            mk = {}
+            for mid, p0 in ((0, 300.0), (1, 500.0)):
+                x = Market(market_id=mid, prng=random.Random(1), simulator=sim, name=f"m{mid}")
+                x.setup({"tickSize": 1.0, "marketPrice": p0})
+                sim._add_market(x)
+                f.add_market(market_id=mid, initial=p0, drift=0.0, volatility=0.0)
+                mk[mid] = x
+            sim._update_times_on_markets(sim.markets)
+            t = 0
+            while t < t0:
+                sim._update_times_on_markets(sim.markets)
+                t += 1
+            if t0:
+                f.change_drift(0, 0.0, time=t)
+            while t < t0 + dist - 1:
+                sim._update_times_on_markets(sim.markets)
+                t += 1
+            until = f._generated_until
+            n += 1
+            try:
+                mk[0].change_fundamental_price(scale=1.5)
+                level = 450.0
+                got = []
+                for k in range(1, 4):
+                    sim._update_times_on_markets(sim.markets)
+                    got.append((mk[0].get_fundamental_price(), mk[1].get_fundamental_price()))
+                past = [f.get_fundamental_price(0, u) for u in range(0, t)]
+                bad = any(Fraction(a) != Fraction(level) or Fraction(b) != 500 for a, b in got) or any(Fraction(v) != 300 for v in past)
+            except Exception as e:  # noqa
+                got, bad = repr(e)[:120], True
+            if bad and len(out) < 3:
+                out.append({"rule": "fundamental-shock-exactly-in-window-on-target", "at": n,
+                            "detail": {"shock_time": t, "generated_until_before": until, "scale": 1.5, "expected_level_after": 450.0,
+                                       "next_three_steps_(target, other)": got,
+                                       "source": "direct calls of Market.change_fundamental_price, zero drift and volatility"}})
+    if cov is not None:
+        cov["change_fundamental_price_direct_calls"] = n
+    return out
+
+
 def holdings_sweep_c05(seed=0, tier="quick", cov=None):
     """directed search used with the C05 tie: the real Simulator._update_agents_for_execution on small populations and fill lists
     (self-trades, repeated parties, several markets), against the property text: the buyer pays price x volume and receives volume
